@@ -38,8 +38,40 @@ VARIANTS = {
     'imax': _variant(i=('integer', '3', (0, 4))),                     # only the upper bound of an integer option moves
     'imin': _variant(i=('integer', '7', (5, 10))),                    # only the lower bound moves (and the default with it)
 }
-SUB_DECL = {'s': ('string', 'subsdef', None), 'c': ('combo', 'a', ['a', 'b', 'c']), 'o': ('string', 'odef', None)}
-SUB_YIELD = ('s', 'c')
+# The subproject's option file has variants of its own (an `edit sub X` command writes variant X, then reconfigures).
+# s, c and i are declared `yield: true` and have a top-level option of the same name and type in every top-level variant.
+SUB_DECL = {'s': ('string', 'subsdef', None), 'c': ('combo', 'a', ['a', 'b', 'c']), 'o': ('string', 'odef', None),
+            'i': ('integer', '2', (0, 10))}
+SUB_YIELD = ('s', 'c', 'i')
+
+
+def _subvariant(**chg):
+    d = dict(SUB_DECL)
+    for k, v in chg.items():
+        if v is None:
+            d.pop(k)
+        else:
+            d[k] = v
+    return d
+
+
+SUB_VARIANTS = {
+    'base': _subvariant(),
+    'ab': _subvariant(c=('combo', 'a', ['a', 'b'])),                  # yielding combo shrinks: an own 'b' stays valid, an own 'c' does not
+    'ca': _subvariant(c=('combo', 'c', ['c', 'a'])),                  # shrinks + new default: an own 'b' becomes invalid
+    'add': _subvariant(m=('string', 'mdef', None)),                   # a new option
+    'remove': _subvariant(o=None),                                    # an option removed
+    'newdef': _subvariant(o=('string', 'odef2', None)),               # a default changes
+    'imax': _subvariant(i=('integer', '2', (0, 5))),                  # yielding integer: an own 7 becomes invalid
+    'imin': _subvariant(i=('integer', '6', (5, 10))),                 # ... an own 7 stays valid (1 would not)
+    'nofile': None,                                                   # the whole option file deleted: every option removed
+}
+
+
+def sub_decl(sv):
+    return SUB_VARIANTS[sv] or {}
+
+
 GLOBAL_BUILTINS = {'warning_level': ('1', ['0', '1', '2', '3', 'everything']),
                    'default_library': ('shared', ['shared', 'static', 'both'])}
 SUB2_DECL = {'o': ('string', 'o2def', None)}   # sub2 is only configured while use2 is true ("late" subproject)
@@ -71,24 +103,28 @@ def top_build_text(decl):
             "if get_option('late')\n  meson.add_postconf_script('false')\nendif\n") % ', '.join("'%s'" % k for k in names)
 
 
-SUB_BUILD = ("project('sub', meson_version: '>=1.1')\n"
-             "foreach k : [%s]\n  message('OBS', 'sub', k, get_option(k))\nendforeach\n"
-             % ', '.join("'%s'" % k for k in list(SUB_DECL) + sorted(GLOBAL_BUILTINS)))
+def sub_build_text(decl):
+    return ("project('sub', meson_version: '>=1.1')\n"
+            "foreach k : [%s]\n  message('OBS', 'sub', k, get_option(k))\nendforeach\n"
+            % ', '.join("'%s'" % k for k in list(decl) + sorted(GLOBAL_BUILTINS)))
 
 
 SUB2_BUILD = "project('sub2', meson_version: '>=1.1')\nmessage('OBS', 'sub2', 'o', get_option('o'))\n"
 
 
-def source_tree(variant, broken=False):
-    decl = VARIANTS[variant]
-    opts = options_text(decl)
-    if broken:
-        opts += "option('x', type: 'string' value 'oops'\n"
-    return {'meson.build': top_build_text(decl), 'meson.options': opts,
-            'subprojects/sub/meson.build': SUB_BUILD,
-            'subprojects/sub/meson.options': options_text(SUB_DECL, SUB_YIELD),
-            'subprojects/sub2/meson.build': SUB2_BUILD,
-            'subprojects/sub2/meson.options': options_text(SUB2_DECL)}
+SYNTAX_ERROR = "option('x', type: 'string' value 'oops'\n"
+
+
+def source_tree(fv, broken=None):
+    """fv = (top-level option-file variant, subproject option-file variant); broken = None | 'top' | 'sub'"""
+    decl = VARIANTS[fv[0]]
+    t = {'meson.build': top_build_text(decl), 'meson.options': options_text(decl) + (SYNTAX_ERROR if broken == 'top' else ''),
+         'subprojects/sub/meson.build': sub_build_text(sub_decl(fv[1])),
+         'subprojects/sub2/meson.build': SUB2_BUILD,
+         'subprojects/sub2/meson.options': options_text(SUB2_DECL)}
+    if SUB_VARIANTS[fv[1]] is not None or broken == 'sub':
+        t['subprojects/sub/meson.options'] = options_text(sub_decl(fv[1]), SUB_YIELD) + (SYNTAX_ERROR if broken == 'sub' else '')
+    return t
 
 
 # ------------------------------------------------------------------------------------------------------------------
@@ -96,8 +132,9 @@ def source_tree(variant, broken=False):
 FAILD = [('s', 'sX'), ('sub:warning_level', '0'), ('sub:o', 'oX')]     # values no other command ever gives
 
 
-def C(name, kind, D=(), U=(), variant=None, inject=None, tiers='qt'):
-    return {'name': name, 'kind': kind, 'D': list(D), 'U': list(U), 'variant': variant, 'inject': inject, 'tiers': tiers}
+def C(name, kind, D=(), U=(), variant=None, subvariant=None, inject=None, tiers='qt'):
+    return {'name': name, 'kind': kind, 'D': list(D), 'U': list(U), 'variant': variant, 'subvariant': subvariant,
+            'inject': inject, 'tiers': tiers}
 
 
 ALPHABET = [
@@ -105,7 +142,7 @@ ALPHABET = [
     C('configure -Ds=s1', 'configure', [('s', 's1')]),
     C('configure -Ds=s2', 'configure', [('s', 's2')], tiers='t'),
     C('configure -Ds=', 'configure', [('s', '')]),                 # the empty string is a value like any other
-    C('configure -Dc=b', 'configure', [('c', 'b')]),
+    C('configure -Dc=b', 'configure', [('c', 'b')], tiers='t'),    # (quick: 'c' with `edit ab` / `edit bc` covers both clauses)
     C('configure -Dc=c', 'configure', [('c', 'c')]),
     C('configure -Dr=r1', 'configure', [('r', 'r1')]),
     C('configure -Di=9', 'configure', [('i', '9')]),
@@ -113,6 +150,11 @@ ALPHABET = [
     C('configure -Dwarning_level=2', 'configure', [('warning_level', '2')]),
     C('configure -Dsub:s=t1', 'configure', [('sub:s', 't1')]),
     C('configure -Dsub:o=o1', 'configure', [('sub:o', 'o1')]),
+    # own values of yielding options that have a choice list / a range (the subproject's option file can then move it)
+    C('configure -Dsub:c=b', 'configure', [('sub:c', 'b')]),
+    C('configure -Dsub:c=c', 'configure', [('sub:c', 'c')], tiers='t'),
+    C('configure -Dsub:i=7', 'configure', [('sub:i', '7')], tiers='t'),
+    C('configure -Usub:c', 'configure', U=['sub:c'], tiers='t'),
     C('configure -Dsub:warning_level=3', 'configure', [('sub:warning_level', '3')]),
     C('configure -Dsub:default_library=static', 'configure', [('sub:default_library', 'static')], tiers='t'),
     # colliding values: an override equal to the value it overrides (dropping it later changes nothing *now*)
@@ -142,10 +184,21 @@ ALPHABET = [
     C('edit imax', 'edit', variant='imax'),
     C('edit imin', 'edit', variant='imin', tiers='t'),
     C('edit base', 'edit', variant='base'),
+    # edits of the SUBPROJECT's option file
+    C('edit sub ab', 'edit', subvariant='ab'),
+    C('edit sub ca', 'edit', subvariant='ca'),
+    C('edit sub add', 'edit', subvariant='add', tiers='t'),
+    C('edit sub remove', 'edit', subvariant='remove'),
+    C('edit sub newdef', 'edit', subvariant='newdef', tiers='t'),
+    C('edit sub imax', 'edit', subvariant='imax', tiers='t'),
+    C('edit sub imin', 'edit', subvariant='imin', tiers='t'),
+    C('edit sub nofile', 'edit', subvariant='nofile'),
+    C('edit sub base', 'edit', subvariant='base'),
     C('fail configure invalid', 'configure', FAILD + [('c', 'zzz')], inject='invalid-value'),
     C('fail reconfigure boom', 'reconfigure', FAILD + [('boom', 'true')], inject='error()'),
     C('fail reconfigure late', 'reconfigure', FAILD + [('late', 'true')], inject='postconf-script'),
-    C('fail edit syntax', 'edit', variant=None, inject='option-file-syntax'),
+    C('fail edit syntax', 'edit', inject='option-file-syntax'),
+    C('fail edit sub syntax', 'edit', inject='sub-option-file-syntax', tiers='t'),
 ]
 CMD = {c['name']: c for c in ALPHABET}
 # Roots: the fresh `meson setup` every history starts from.  The second one gives a value to an option of the subproject
@@ -178,10 +231,11 @@ class Unspecified(Exception):
 
 
 UNSPECIFIED = [
-    '-Dk=v for a project option that is not (or no longer) declared in the option file',
+    '-Dk=v / -Dsub:k=v for a project option that is not (or no longer) declared in the option file of its project',
     '--wipe while cmd_line.txt records a value for an option that no longer exists, or a value the current choice list rejects',
     'exit status of -Usub:k when sub:k has no override (no effect either way; the effect is still checked)',
-    '-U of a subproject project option that does not yield; -D/-U of options of an undeclared subproject',
+    '-U of a subproject project option that does not yield (or is no longer declared); -D/-U of options of an undeclared subproject',
+    'an edit that takes the parent away from a yielding option (removed / retyped at the top level): not in the alphabet',
     'whether -Dsub2:o=v succeeds while sub2 has never been configured in this build directory (meson rejects it as unknown '
     'except on the first setup): either way is accepted; on failure nothing may move, on success the value counts',
     'meson configure -Dboom=true (setting, without reconfiguring, a value that makes the build files fail): not in the alphabet',
@@ -191,9 +245,10 @@ UNSPECIFIED = [
 
 
 def model_initial(D=()):
-    m = {'file': 'base', 'conf': 'base',
+    m = {'file': 'base', 'conf': 'base',                 # top-level option file: variant on disk / variant last configured
+         'subfile': 'base', 'subconf': 'base',           # the same for the subproject's option file
          'top': {k: v[1] for k, v in VARIANTS['base'].items()},
-         'sub': {'o': SUB_DECL['o'][1]},
+         'sub': {k: v[1] for k, v in SUB_DECL.items() if k not in SUB_YIELD},
          'sub2': {'o': SUB2_DECL['o'][1]},               # seen by get_option() only while top.use2 is true
          'over': {},                                     # separately set values of yielding subproject options
          'glob': {k: v[0] for k, v in GLOBAL_BUILTINS.items()},
@@ -216,7 +271,7 @@ def _valid(ty, choices, v):
 
 def _set(m, key, v):
     """One -Dkey=v.  Returns False when the value is invalid (the whole command then fails)."""
-    decl = VARIANTS[m['conf']]
+    decl, sdecl = VARIANTS[m['conf']], sub_decl(m['subconf'])
     if ':' in key:
         sp, name = key.split(':', 1)
         if sp == 'sub2':
@@ -229,16 +284,14 @@ def _set(m, key, v):
             if v not in GLOBAL_BUILTINS[name][1]:
                 return False
             m['aug'][name] = v                          # "-Dnumbercruncher:optimization=3": custom value for the subproject
+        elif name not in sdecl:
+            raise Unspecified('-D%s for an option that is not (or no longer) declared' % key)
+        elif not _valid(sdecl[name][0], sdecl[name][2], v):
+            return False
         elif name in SUB_YIELD:
-            if not _valid(SUB_DECL[name][0], SUB_DECL[name][2], v):
-                return False
             m['over'][name] = v                         # "sets the value separately from the option it yields to"
-        elif name in SUB_DECL:
-            if not _valid(SUB_DECL[name][0], SUB_DECL[name][2], v):
-                return False
-            m['sub'][name] = v
         else:
-            raise Unspecified('-D for an undeclared subproject option')
+            m['sub'][name] = v
     elif key in GLOBAL_BUILTINS:
         if v not in GLOBAL_BUILTINS[key][1]:
             return False
@@ -258,7 +311,7 @@ def _unset(m, key):
     if name in GLOBAL_BUILTINS:
         had = name in m['aug']
         m['aug'].pop(name, None)                       # "Subproject specific values can be removed with -U"
-    elif name in SUB_YIELD:
+    elif name in SUB_YIELD and name in sub_decl(m['subconf']):
         had = name in m['over']
         m['over'].pop(name, None)                      # "dropping an override returns the subproject to the inherited value"
     else:
@@ -279,8 +332,27 @@ def _reread_option_file(m):
         # a changed default alone changes nothing: the option keeps "the default it was created with"
     for k in old:
         if k not in new:
+            assert k not in SUB_YIELD                   # (a yielding option losing its parent: not in the space)
             m['top'].pop(k)                             # "a removed one vanishes"
     m['conf'] = m['file']
+    # the subproject's option file: the same clauses.  A yielding option without a value of its own has no value that a
+    # changed choice list could keep or reject ("get_option returns the value of the superproject"); one the user gave a
+    # value keeps that value when still valid and otherwise falls back to the new default - still a value of its own,
+    # "separately from the option it yields to".
+    old, new = sub_decl(m['subconf']), sub_decl(m['subfile'])
+    for k, (ty, dv, ch) in new.items():
+        vals = m['over'] if k in SUB_YIELD else m['sub']
+        if k not in old:
+            if k not in SUB_YIELD:
+                vals[k] = dv                            # "a new option gets its default"
+        elif old[k][2] != ch:
+            if k in vals and not _valid(ty, ch, vals[k]):
+                vals[k] = dv                            # "otherwise falls back to the new default"
+    for k in old:
+        if k not in new:
+            m['over'].pop(k, None)                      # "a removed one vanishes"
+            m['sub'].pop(k, None)
+    m['subconf'] = m['subfile']
 
 
 def _fails_in_build_files(m):
@@ -293,9 +365,12 @@ def model_step(m, cmd):
     kind = cmd['kind']
     m2 = copy.deepcopy(m)
     if kind == 'edit':
-        if cmd['variant'] is None:                      # option file with a syntax error (put back afterwards)
+        if cmd['inject']:                               # option file with a syntax error (put back afterwards)
             return 'fail', m
-        m2['file'] = cmd['variant']
+        if cmd['variant']:
+            m2['file'] = cmd['variant']
+        if cmd['subvariant']:
+            m2['subfile'] = cmd['subvariant']
         _reread_option_file(m2)
         if _fails_in_build_files(m2):
             return 'fail', m
@@ -321,12 +396,14 @@ def model_step(m, cmd):
         return expect, m2
     if kind == 'wipe':
         # "`--wipe` re-derives the configuration from the recorded command lines plus current defaults"
-        new = VARIANTS[m['file']]
+        new, snew = VARIANTS[m['file']], sub_decl(m['subfile'])
         w = model_initial()
         w['file'] = w['conf'] = m['file']
+        w['subfile'] = w['subconf'] = m['subfile']
         w['top'] = {k: v[1] for k, v in new.items()}
+        w['sub'] = {k: v[1] for k, v in snew.items() if k not in SUB_YIELD}
         for k, v in m['cmd'].items():
-            if ':' not in k and k not in GLOBAL_BUILTINS and k not in new:
+            if k.split(':')[-1] not in GLOBAL_BUILTINS and (k not in new if ':' not in k else k.startswith('sub:') and k[4:] not in snew):
                 raise Unspecified('--wipe with a recorded value for an option that no longer exists')
             if not _set(w, k, v):
                 raise Unspecified('--wipe with a recorded value that the current choices reject')
@@ -346,9 +423,11 @@ def model_predict(m):
     for k, v in m['glob'].items():
         out['top.' + k] = v
         out['sub.' + k] = m['aug'].get(k, v)            # dropping the override returns to the inherited value
-    for k in SUB_YIELD:
-        out['sub.' + k] = m['over'].get(k, m['top'][k])  # "get_option returns the value of the superproject"
-    out['sub.o'] = m['sub']['o']
+    for k in sub_decl(m['subconf']):
+        if k in SUB_YIELD:
+            out['sub.' + k] = m['over'].get(k, m['top'][k])  # "get_option returns the value of the superproject"
+        else:
+            out['sub.' + k] = m['sub'][k]
     if m['top'].get('use2') == 'true':
         out['sub2.o'] = m['sub2']['o']
     return out
@@ -413,20 +492,20 @@ def snapshot():
     return out
 
 
-def restore(files, variant, broken=False):
+def restore(files, fv, broken=None):
     b = os.path.join(WORK, 'b')
     shutil.rmtree(b, ignore_errors=True)
     os.makedirs(b)
     if files is not None:
         mp.write_tree(b, files)
         os.makedirs(os.path.join(b, 'meson-logs'), exist_ok=True)
-    write_source(variant, broken)
+    write_source(fv, broken)
 
 
-def write_source(variant, broken=False):
+def write_source(fv, broken=None):
     src = os.path.join(WORK, 'src')
     shutil.rmtree(src, ignore_errors=True)
-    mp.write_tree(src, source_tree(variant, broken))
+    mp.write_tree(src, source_tree(fv, broken))
 
 
 def run(argv):
@@ -538,16 +617,16 @@ def observe():
 
 def exec_step(cmd, file_variant):
     """Run one command of the alphabet in WORK (already holding the source state).  Returns the raw outcome; the
-    build directory afterwards is the successor state (not yet observed)."""
-    new_variant = file_variant
+    build directory afterwards is the successor state (not yet observed).  file_variant = (top, sub) variants on disk."""
+    new_variant = tuple(file_variant)
     if cmd['kind'] == 'edit':
-        if cmd['variant'] is None:
-            write_source(file_variant, broken=True)
+        if cmd['inject']:
+            write_source(file_variant, broken='sub' if cmd['inject'].startswith('sub-') else 'top')
         else:
-            new_variant = cmd['variant']
+            new_variant = (cmd['variant'] or file_variant[0], cmd['subvariant'] or file_variant[1])
             write_source(new_variant)
     r = run(argv_of(cmd))
-    if cmd['kind'] == 'edit' and cmd['variant'] is None:
+    if cmd['kind'] == 'edit' and cmd['inject']:
         write_source(file_variant)
     return {'rc': r.rc, 'unhandled': bool(r.unhandled), 'tail': r.out[-900:] if r.rc else '',
             'unknown_options': 'Unknown options' in r.out}, new_variant
@@ -565,13 +644,13 @@ def full_step(cmd, files, file_variant):
 
 
 def initial_state(root=None):
-    restore(None, 'base')
+    restore(None, ('base', 'base'))
     r = run(['setup', '--backend=none', 'b', 'src'] + ['-D%s=%s' % kv for kv in (root['D'] if root else ())])
     res = {'rc': r.rc, 'unhandled': bool(r.unhandled), 'tail': r.out[-900:] if r.rc else '', 'unknown_options': False}
     res['pobs'] = persisted_obs()
     snap = snapshot()
     res['obs'] = observe()
-    res['variant'] = 'base'
+    res['variant'] = ('base', 'base')
     return res, snap
 
 
@@ -593,39 +672,51 @@ def real_key(res):
 
 
 def expected_intro(m):
+    """project options the listings must show: name -> value (None: listed, but the value shown for a yielding
+    option is not specified, see UNSPECIFIED)"""
     d = dict(m['top'])
-    d['sub:o'] = m['sub']['o']
+    for k in sub_decl(m['subconf']):
+        d['sub:' + k] = None if k in SUB_YIELD else m['sub'][k]
     return d
 
 
 def _fold_history(hist):
     """Facts about a history used ONLY to classify (name) a disagreement, never to decide one."""
-    variant = 'base'
+    variant, subvariant = 'base', 'base'
     choices_changed = set()          # top-level options whose choice list changed at least once
+    sub_choices_changed = set()      # the same for the subproject's options
     own = {k: SUB_DECL[k][1] for k in SUB_YIELD}     # last value given to sub:k itself (or its private default)
     for n in hist:
         c = CMD[n]
-        if c['kind'] == 'edit' and c['variant']:
+        if c['kind'] == 'edit' and c['variant'] and not c['inject']:
             for k, v in VARIANTS[c['variant']].items():
                 if k in VARIANTS[variant] and VARIANTS[variant][k][2] != v[2]:
                     choices_changed.add(k)
             variant = c['variant']
+        if c['kind'] == 'edit' and c['subvariant'] and not c['inject']:
+            for k, v in sub_decl(c['subvariant']).items():
+                if k in sub_decl(subvariant) and sub_decl(subvariant)[k][2] != v[2]:
+                    sub_choices_changed.add(k)
+            subvariant = c['subvariant']
         if not c['inject']:
             for k, v in c['D']:
                 if k.startswith('sub:') and k[4:] in own:
                     own[k[4:]] = v
-    return choices_changed, own
+    return choices_changed, own, sub_choices_changed
 
 
 def classify_value(m, m2, cmd, hist, bad):
     ysub = ['sub.' + k for k in SUB_YIELD]
     if all(b in ysub for b in bad):
-        choices_changed, own = _fold_history(hist + [cmd['name']])
+        choices_changed, own, sub_choices_changed = _fold_history(hist + [cmd['name']])
         names = [b[4:] for b in bad]
         if all(n not in m2['over'] and n in choices_changed for n in names):
             # the subproject option yields, its parent's choice list was edited earlier in the history
             return 'C08:yield-stale-after-parent-choices-change'
-        _, own_before = _fold_history(hist)
+        if all(n in m2['over'] and n in sub_choices_changed for n in names):
+            # the user gave the yielding option a value of its own, its own choice list / range was edited earlier
+            return 'C08:yield-own-value-wrong-after-own-choices-change:' + '+'.join(bad)
+        _, own_before, _ = _fold_history(hist)
         sets = dict(cmd['D'])
         if all(('sub:' + n) in sets and n not in m['over'] and own_before[n] == sets['sub:' + n] for n in names):
             # -Dsub:k=v on a yielding option whose own (hidden) value already is v
@@ -653,7 +744,7 @@ def judge(m, prev, cmd, res, hist, taint=()):
     if res['rc'] != 0:
         # "a configure or reconfigure that fails leaves every persisted value exactly as it was"
         moved = []
-        src_changed = cmd['kind'] == 'edit' and cmd['variant'] is not None     # a different source tree is on disk now
+        src_changed = cmd['kind'] == 'edit' and not cmd['inject']               # a different source tree is on disk now
         for part in ('cmdline', 'intro') + (() if src_changed else ('configure', 'augments')):
             if res['pobs'][part] != prev['pobs'][part]:
                 moved.append(part)
@@ -668,7 +759,9 @@ def judge(m, prev, cmd, res, hist, taint=()):
         if expect == 'ok':
             cls = 'C08:unexpected-failure:' + kind
             if res['unknown_options'] and cmd['kind'] == 'edit':
-                gone = sorted(k for k in m['cmd'] if ':' not in k and k not in GLOBAL_BUILTINS and k not in VARIANTS[cmd['variant']])
+                new, snew = VARIANTS[cmd['variant'] or m['file']], sub_decl(cmd['subvariant'] or m['subfile'])
+                gone = sorted(k for k in m['cmd'] if k.split(':')[-1] not in GLOBAL_BUILTINS
+                              and (k not in new if ':' not in k else k.startswith('sub:') and k[4:] not in snew))
                 if gone:
                     cls = 'C08:unexpected-failure:edit:removed-option-still-recorded'
             V.append((cls, 'the model expects success, meson failed: ' + _flat(res['tail'][-300:])))
@@ -693,14 +786,23 @@ def judge(m, prev, cmd, res, hist, taint=()):
     # the set of options listed by introspection / meson configure ("a removed one vanishes", "a new option ...")
     wi = expected_intro(m2)
     for label, gotd in (('intro', res['pobs']['intro']), ('configure', res['pobs']['configure'])):
-        gd = {k: v for k, v in gotd.items() if k in wi or (':' not in k and k not in GLOBAL_BUILTINS)}
+        gd = {k: v for k, v in gotd.items()
+              if k in wi or ((':' not in k or k.startswith('sub:')) and k.split(':')[-1] not in GLOBAL_BUILTINS)}
         extra = sorted(set(gd) - set(wi))
         missing = sorted(set(wi) - set(gd))
-        if extra or missing:
+        if extra and not missing and SUB_VARIANTS[m2['subconf']] is None and all(x.startswith('sub:') for x in extra):
+            # the subproject has no option file (any more).  Two classes, named by what is listed (names only):
+            #  options-stay: options the deleted file used to declare are still there ("a removed one vanishes")
+            #  top-level-options-listed-for-subproject: options that only the TOP-LEVEL option file declares show up as sub:k
+            ever = set().union(*[set(d or ()) for d in SUB_VARIANTS.values()])
+            invented = [x for x in extra if x[4:] not in ever]
+            V.append(('C08:sub-option-file-deleted:%s:%s' % ('top-level-options-listed-for-subproject' if invented else 'options-stay', label),
+                      '%s lists project options %s of a subproject without an option file, the model has none' % (label, extra)))
+        elif extra or missing:
             V.append(('C08:optset:%s:%s:%s' % (kind, label, '+'.join(['+' + x for x in extra] + ['-' + x for x in missing])),
                       '%s lists project options %s, the model has %s' % (label, sorted(gd), sorted(wi))))
         else:
-            badv = sorted(k for k in wi if gd[k] != wi[k])
+            badv = sorted(k for k in wi if wi[k] is not None and gd[k] != wi[k])
             if badv:
                 V.append(('C08:listed-value:%s:%s:%s' % (kind, label, '+'.join(badv)),
                           '%s shows %s' % (label, ', '.join('%s=%r (model %r)' % (k, gd[k], wi[k]) for k in badv))))
@@ -721,6 +823,22 @@ def judge(m, prev, cmd, res, hist, taint=()):
                 J['facts'].append('default-changed-value-kept')
         if any(k not in new for k in old):
             J['facts'].append('option-removed')
+    if cmd['kind'] in ('edit', 'reconfigure') and m['subconf'] != m2['subconf']:
+        old, new = sub_decl(m['subconf']), sub_decl(m2['subconf'])
+        for k in new:
+            if ('sub.' + k) in bad:
+                continue
+            if k in old and old[k][2] != new[k][2]:
+                if k not in m['over']:
+                    J['facts'].append('sub-choices-changed-while-yielding')
+                else:
+                    J['facts'].append('sub-choices-own-value-' + ('fallback' if m['over'][k] != m2['over'][k] else 'kept'))
+            if k not in old:
+                J['facts'].append('sub-option-added')
+            if k in old and old[k][1] != new[k][1] and old[k][2] == new[k][2]:
+                J['facts'].append('sub-default-changed-value-kept')
+        if any(k not in new for k in old) and not any(('sub.' + k) in bad for k in old):
+            J['facts'].append('sub-option-removed' if new else 'sub-option-file-deleted')
     if cmd['U'] and m != m2:
         J['facts'].append('override-dropped')
     if 'sub2.o' in want and 'sub2.o' not in model_predict(m) and m2['sub2']['o'] != SUB2_DECL['o'][1] and 'sub2.o' not in bad:
@@ -816,7 +934,7 @@ def main():
         jobs = 1
         ck.assume('mount namespaces unavailable: transitions executed serially at the fixed path')
     depth = ck.q(3, 5)
-    max_expand = ck.q(220, 1800)            # count-based cap on expanded states (deterministic); frontier reported
+    max_expand = ck.q(190, 1800)            # count-based cap on expanded states (deterministic); frontier reported
     tier_letter = 't' if ck.thorough else 'q'
     alphabet = [c['name'] for c in ALPHABET if tier_letter in c['tiers']]
 
@@ -846,7 +964,7 @@ def main():
         by_model[(model_key(mr), '')] = ([root['name']], real_key(resr))
         level.append(sr)
     n_trans = n_unspec = n_selfloop = n_merged = n_diff = n_pruned_viol = n_tainted_cont = 0
-    unspec_reasons, per_kind, facts = {}, {}, {}
+    unspec_reasons, per_kind, per_cmd, facts = {}, {}, {}, {}
     edge_classes, fail_classes = set(), set()
     expanded = unexpanded = 0
     capped = False
@@ -875,6 +993,7 @@ def main():
             n_trans += 1
             kk = 'fail' if cmd['inject'] else cmd['kind']
             per_kind[kk] = per_kind.get(kk, 0) + 1
+            per_cmd[cname] = per_cmd.get(cname, 0) + 1
             J = judge(st['m'], st['res'], cmd, res, st['hist'], st['taint'])
             hist = st['hist'] + [cname]
             if res['rc'] != 0:
@@ -964,6 +1083,8 @@ def main():
     yield_over = sum(1 for s in states.values() if s['m']['over'])
     augs = sum(1 for s in states.values() if s['m']['aug'])
     variants_seen = sorted({s['m']['conf'] for s in states.values()})
+    sub_variants_seen = sorted({s['m']['subconf'] for s in states.values()})
+    both_edited = sum(1 for s in states.values() if s['m']['conf'] != 'base' and s['m']['subconf'] != 'base')
     if ck.n_viol == 0:
         ck.require(len(states) >= 20, 'only %d states' % len(states))
         ck.require(facts.get('failed-unmoved', 0) > 0, 'no injected failure was observed to fail and leave the state alone')
@@ -979,10 +1100,17 @@ def main():
         reachable = {c['variant'] for c in ALPHABET if c['variant'] and tier_letter in c['tiers']} | {'base'}
         ck.require(set(variants_seen) == reachable, 'option-file variants reached: %r' % variants_seen)
         ck.require(n_diff > 0, 'differential oracle never compared two histories')
+        # the subproject's option file: every clause the tier's alphabet can reach was exercised (and agreed with the model)
+        for f in ('sub-choices-own-value-kept', 'sub-choices-own-value-fallback', 'sub-choices-changed-while-yielding',
+                  'sub-option-removed') + (('sub-option-added', 'sub-default-changed-value-kept') if ck.thorough else ()):
+            ck.require(facts.get(f, 0) > 0, 'clause never exercised (option file of the subproject): ' + f)
+        ck.require(sum(1 for s in states.values() if s['m']['subconf'] != 'base' and s['m']['over'].get('c')) > 0,
+                   'no state with an edited option file of the subproject and an own value of its yielding combo')
     for s in list(states.values())[1:40:8]:
         ck.sample({'history': s['hist'], 'get_option': s['res']['obs']['msgs'], 'cmd_line': s['res']['pobs']['cmdline']})
-    ck.assume('one project (top: string s, combo c, boolean boom/late, removable r, addable n; subproject sub: yielding s and c, '
-              'plain o, per-subproject warning_level/default_library), --backend=none, no languages')
+    ck.assume('one project (top: string s, combo c, integer i, boolean boom/late, removable r, addable n; subproject sub: yielding '
+              's, c and i, plain o (removable), addable m, per-subproject warning_level/default_library; late subproject sub2), '
+              '--backend=none, no languages; an option-file edit is always picked up by a setup --reconfigure')
     ck.assume('snapshots exclude meson-logs/ (never read by any command)')
     for u in UNSPECIFIED:
         ck.assume('unspecified corner (skipped, counted): ' + u)
@@ -993,6 +1121,9 @@ def main():
             expanded_states=expanded, frontier_not_expanded=frontier_left, merged=n_merged, self_loops=n_selfloop,
             differential_comparisons=n_diff, pruned_after_violation=n_pruned_viol, continued_tainted=n_tainted_cont,
             states_with_yield_override=yield_over, states_with_augment=augs, cold_histories=cold_checked,
+            option_file_variants_reached=variants_seen, sub_option_file_variants_reached=sub_variants_seen,
+            states_with_both_option_files_edited=both_edited,
+            sub_option_file_edit_transitions=sum(v for k, v in per_cmd.items() if k.startswith('edit sub ')),
             transitions_by_kind=per_kind, clause_counters=facts, unspecified=unspec_reasons,
             violation_confirmations=2 * len(to_confirm), level_wall_s=t_levels, expanded_per_level=level_sizes,
             cpu_s_all_processes=round(sum(resource.getrusage(resource.RUSAGE_CHILDREN)[:2]) + sum(resource.getrusage(resource.RUSAGE_SELF)[:2]), 1))
